@@ -238,13 +238,116 @@ fn collect_scans(
             (Some(existing), None) => *existing = None,
             (Some(None), Some(_)) => {}
         }
+        // A pushed-down filter never holds a subquery today; walk it anyway so
+        // that a future pushdown cannot silently lose a table.
+        if let Some(filter) = &scan.filter {
+            for sub in subquery_plans(&[filter]) {
+                collect_scans(ctx, &sub, required)?;
+            }
+        }
         return Ok(());
     }
 
     for child in plan.children() {
         collect_scans(ctx, child, required)?;
     }
+    // `children()` does not include the plans of subquery EXPRESSIONS
+    // (scalar / EXISTS / IN) that survive in the optimized plan. The re-bound
+    // statement runs them on the initiator too, so their scans must be
+    // gathered as well.
+    for sub in subquery_plans(&node_exprs(plan)) {
+        collect_scans(ctx, &sub, required)?;
+    }
     Ok(())
+}
+
+/// The expressions a plan node carries.
+fn node_exprs(plan: &LogicalPlan) -> Vec<&crate::planner::Expr> {
+    match plan {
+        LogicalPlan::Filter(n) => vec![&n.predicate],
+        LogicalPlan::Project(n) => n.exprs.iter().collect(),
+        LogicalPlan::Join(n) => n
+            .on
+            .iter()
+            .flat_map(|(l, r)| [l, r])
+            .chain(n.filter.iter())
+            .collect(),
+        LogicalPlan::Aggregate(n) => n.group_by.iter().chain(n.aggregates.iter()).collect(),
+        LogicalPlan::Sort(n) => n.order_by.iter().map(|o| &o.expr).collect(),
+        LogicalPlan::Window(n) => n
+            .window_exprs
+            .iter()
+            .flat_map(|(_, w)| {
+                w.args
+                    .iter()
+                    .chain(w.partition_by.iter())
+                    .chain(w.order_by.iter().map(|o| &o.expr))
+            })
+            .collect(),
+        _ => Vec::new(),
+    }
+}
+
+/// Plans of the subquery expressions inside `exprs`, at any depth.
+fn subquery_plans(exprs: &[&crate::planner::Expr]) -> Vec<std::sync::Arc<LogicalPlan>> {
+    use crate::planner::Expr;
+    fn walk(e: &Expr, out: &mut Vec<std::sync::Arc<LogicalPlan>>) {
+        match e {
+            Expr::ScalarSubquery(p) => out.push(p.clone()),
+            Expr::Exists { subquery, .. } => out.push(subquery.clone()),
+            Expr::InSubquery { expr, subquery, .. } => {
+                walk(expr, out);
+                out.push(subquery.clone());
+            }
+            Expr::BinaryExpr { left, right, .. } => {
+                walk(left, out);
+                walk(right, out);
+            }
+            Expr::UnaryExpr { expr, .. } | Expr::Cast { expr, .. } | Expr::Alias { expr, .. } => {
+                walk(expr, out)
+            }
+            Expr::Aggregate { args, .. } | Expr::ScalarFunc { args, .. } => {
+                for a in args {
+                    walk(a, out);
+                }
+            }
+            Expr::Case {
+                operand,
+                when_then,
+                else_expr,
+            } => {
+                if let Some(o) = operand {
+                    walk(o, out);
+                }
+                for (w, t) in when_then {
+                    walk(w, out);
+                    walk(t, out);
+                }
+                if let Some(el) = else_expr {
+                    walk(el, out);
+                }
+            }
+            Expr::InList { expr, list, .. } => {
+                walk(expr, out);
+                for i in list {
+                    walk(i, out);
+                }
+            }
+            Expr::Between {
+                expr, low, high, ..
+            } => {
+                walk(expr, out);
+                walk(low, out);
+                walk(high, out);
+            }
+            _ => {}
+        }
+    }
+    let mut out = Vec::new();
+    for e in exprs {
+        walk(e, &mut out);
+    }
+    out
 }
 
 /// Column names an expression mentions.
